@@ -71,11 +71,18 @@ int main(int argc, char** argv) {
             const bool stun_ok = c.s("stun", "none") != "none";
             const Addr stun = stun_ok ? from_spec(c.s("stun")) : Addr{};
 
+            // prev=pub|priv: the same node was started before with auto mode on and private advertising allowed, STUN answering a routable /
+            // a private address; it is then stopped, reconfigured (mode, allow) and started again -- the judged start
+            const std::string prev = c.s("prev", "none");
+            bool first_phase = prev != "none";
+            const std::string prev_addr = prev == "pub" ? "45.64.61.85" : "192.168.1.23";
             network::NatTraversalManager::TestHooks hooks{};
             hooks.stun_override = [&]() -> std::optional<network::NatTraversalManager::StunQueryResult> {
-                if (!stun_ok) return std::nullopt;
                 network::NatTraversalManager::StunQueryResult r{};
-                r.address = stun.text; r.reported_port = 47001; r.server = "verif-stun";
+                r.reported_port = 47001; r.server = "verif-stun";
+                if (first_phase) { r.address = prev_addr; return r; }
+                if (!stun_ok) return std::nullopt;
+                r.address = stun.text;
                 return r;
             };
             network::NatTraversalManager::set_test_hooks(&hooks);
@@ -95,7 +102,16 @@ int main(int argc, char** argv) {
             long long port = 0;
             std::string threw;
             try {
-                Node node(node_id, cfg);
+                Config first = cfg;
+                if (first_phase) { first.advertise_auto_mode = Config::AdvertiseAutoMode::On; first.advertise_allow_private = true; }
+                Node node(node_id, first_phase ? first : cfg);
+                if (first_phase) {
+                    node.start_transport(0);
+                    node.stop_transport();
+                    first_phase = false;
+                    node.config().advertise_auto_mode = cfg.advertise_auto_mode;
+                    node.config().advertise_allow_private = cfg.advertise_allow_private;
+                }
                 node.start_transport(0);
                 port = node.transport_port();
                 const Config& now = node.config();
@@ -117,7 +133,7 @@ int main(int argc, char** argv) {
             } catch (const std::exception& ex) { threw = ex.what(); }
             network::NatTraversalManager::set_test_hooks(nullptr);
             ev::Ev e("publish");
-            e.s("mode", mode).b("allow", allow).raw("ctl", jaddr(ctl)).b("stun_ok", stun_ok);
+            e.s("mode", mode).b("allow", allow).raw("ctl", jaddr(ctl)).b("stun_ok", stun_ok).s("prev", prev);
             if (stun_ok) e.raw("stun", jaddr(stun));
             e.i("tport", port).b("conflict_flag", conflict_flag).raw("cands", ev::jlist(cands)).raw("advertised", ev::jlist(adv)).raw("hints", ev::jlist(hints));
             if (!threw.empty()) e.s("threw", threw);
